@@ -19,6 +19,7 @@ import RoModel.Drivers.Multi
 import RoModel.Drivers.Create
 import RoModel.Drivers.More
 import RoModel.Drivers.Fault
+import RoModel.Drivers.Prom
 namespace Ro.Driver
 
 def handlers : List (String × (Case → String)) := [
@@ -42,7 +43,8 @@ def handlers : List (String × (Case → String)) := [
   ("create", Drivers.Create.run),
   ("tap", Drivers.More.runTap),
   ("pipe", Drivers.More.runPipe),
-  ("fault", Drivers.Fault.run)
+  ("fault", Drivers.Fault.run),
+  ("prom", Drivers.Prom.run)
 ]
 
 def runCase (c : Case) : String :=
